@@ -759,8 +759,19 @@ macro_rules! directed_flavour {
                         if spec.transpose {
                             b = b.transpose();
                         }
-                        let p = if spec.mode == SMode::Cycle { b.search_cycle() } else { b.search_path() };
-                        p.map(|p| describe_path!(p))
+                        if spec.mode == SMode::Cycle {
+                            b.search_cycle().map(|p| describe_path!(p))
+                        } else {
+                            // the same search object used a second and a third time
+                            let first = b.search_path().map(|p| describe_path!(p));
+                            let second = b.search_path().map(|p| describe_path!(p));
+                            let third = b.search().map(|n| *n.key());
+                            if first.is_none() && second.is_none() && third.is_none() {
+                                None
+                            } else {
+                                Some(format!("{} | used again: {} | then search(): {third:?}", first.unwrap_or_default(), second.unwrap_or_default()))
+                            }
+                        }
                     }};
                 }
                 match spec.kind {
@@ -1000,8 +1011,19 @@ macro_rules! undirected_flavour {
                         if let Some(t) = &tk {
                             b = b.target(t);
                         }
-                        let p = if spec.mode == SMode::Cycle { b.search_cycle() } else { b.search_path() };
-                        p.map(|p| describe_path!(p))
+                        if spec.mode == SMode::Cycle {
+                            b.search_cycle().map(|p| describe_path!(p))
+                        } else {
+                            // the same search object used a second and a third time
+                            let first = b.search_path().map(|p| describe_path!(p));
+                            let second = b.search_path().map(|p| describe_path!(p));
+                            let third = b.search().map(|n| *n.key());
+                            if first.is_none() && second.is_none() && third.is_none() {
+                                None
+                            } else {
+                                Some(format!("{} | used again: {} | then search(): {third:?}", first.unwrap_or_default(), second.unwrap_or_default()))
+                            }
+                        }
                     }};
                 }
                 match spec.kind {
